@@ -97,6 +97,22 @@ PROPS["C15"] = {"theorems": ["C15_min_int", "C15_max_int", "C15_multipleOf_int",
                         "the model's PredK.call/ProcK.call, result type and argument snapshot checked), plus sampled large values"}
 
 
+def _run_eq(pid: str, tier: str, seed: int, spec: dict, scale: float = 1.0, salt: str = "") -> dict:
+    from . import eq_stream
+    return eq_stream.run(pid, tier, seed, spec, scale, salt)
+
+
+def _replay_eq(case: dict) -> List[str]:
+    from . import eq_stream
+    return eq_stream.replay_case(case)
+
+
+PROPS["C19"] = {"theorems": [], "run": _run_eq, "replay": _replay_eq,
+                "rule": "pairs (t, independent rebuild of t) and (t, t with one constructor argument changed at one node) "
+                        "for every validator kind; when the real == says equal, both are run on a pool of inputs generated "
+                        "to separate them, in both modes; a pair is non-trivial when an argument was changed"}
+
+
 def run_core(pid: str, tier: str, seed: int, spec: dict, scale: float = 1.0, salt: str = "") -> dict:
     n = int((spec["quick_n"] if tier == "quick" else spec["thorough_n"]) * scale)
     opts = dict(spec.get("opts", {}))
@@ -131,6 +147,6 @@ def load_corpus(pid: str) -> List[dict]:
         if fn.endswith(".json"):
             with open(os.path.join(d, fn)) as f:
                 c = json.load(f)
-            if pid in c.get("properties", [pid]):
+            if pid in c.get("properties", [pid]) and (("w" in c["case"]) == (pid == "C19")):
                 out.append(c["case"])
     return out
